@@ -22,6 +22,12 @@ _ACTIVE = None            # the Scheduler whose run() is in progress in this pro
 _LOCK_SEAM = {}
 
 
+def _async_only_window(frame):
+    import linecache
+    src = linecache.getline(frame.f_code.co_filename, frame.f_lineno).strip()
+    return src.startswith("with ") or src.startswith("async with ") or src == "try:" or src.startswith("try:  #")
+
+
 class SimLock:
     """A lock the simulator owns.  Wraps a real Lock / RLock created by library code.  Uncontended, or used outside a
     simulated task, it behaves exactly like the real lock.  When a simulated task finds it held, the task does not block in
@@ -338,6 +344,15 @@ class Scheduler:
                 # (output formatting, a dialect mixin) without having to guess its distance from the start of the call
                 task.focus_lines = getattr(task, "focus_lines", 0) + 1
                 hit = task.focus_lines == task.cancel_at_line
+        if hit and _async_only_window(frame):
+            # a `with` line (its exit event precedes the call of __exit__) or a `try:` line right after an acquire(): only
+            # an asynchronous signal landing in a one-instruction window could fail there, and the standard locking idioms
+            # do not survive that by design - the fault moves on to the next line
+            hit = False
+            if getattr(task, "cancel_focus", None) is None:
+                task.cancel_at_line += 1
+            else:
+                task.focus_lines -= 1
         if hit:
             task.cancel_at_line = None
             self.on_event("cancel_line", task.tid, task.lines)
